@@ -1,0 +1,232 @@
+//go:build verif
+
+// Contracts for the commit frontier (C02, commit-state part) and the replica precommit path (C07).
+// Owner: con-c07. See /verif/DESIGN.md section 3 (C02, C07) and /verif/notes/con-c07.md.
+package store
+
+// spec_allowed is the id up to which the store may commit (body of commitAllowedUpTo).
+func spec_allowed(s *ImmuStore) uint64 {
+	if !s.useExternalCommitAllowance {
+		return s.inmemPrecommittedTxID
+	}
+	return s.commitAllowedUpToTxID
+}
+
+// spec_csWF: the part of the lock invariant of commitStateRWMutex that is about the ring buffer's shape
+// (established by OpenWith: newPrecommitBuffer(size > 0), cLog/txLog opened, cLogEntrySize chosen from the two versions).
+func spec_csWF(s *ImmuStore) bool {
+	return s.cLogBuf != nil && spec_pbWF(s.cLogBuf) && s.cLog != nil && s.txLog != nil &&
+		(s.cLogEntrySize == cLogEntrySizeV1 || s.cLogEntrySize == cLogEntrySizeV2) &&
+		s.inmemPrecommitWHub != nil && s.durablePrecommitWHub != nil && s.commitWHub != nil && s.aht != nil
+}
+
+// spec_csInv: the ordering part of the lock invariant of commitStateRWMutex (DESIGN Appendix D): the committed id never
+// exceeds the precommitted id, and an external allowance never lies below the committed id.
+func spec_csInv(s *ImmuStore) bool {
+	return s.committedTxID <= s.inmemPrecommittedTxID &&
+		(!s.useExternalCommitAllowance || s.committedTxID <= s.commitAllowedUpToTxID)
+}
+
+// spec_csCnt: the ring buffer holds exactly the precommitted-but-not-committed transactions.
+func spec_csCnt(s *ImmuStore) bool {
+	return s.inmemPrecommittedTxID-s.committedTxID <= 1<<20 &&
+		spec_pbCount(s.cLogBuf) == int(s.inmemPrecommittedTxID-s.committedTxID)
+}
+
+//@ func (*ImmuStore).commitAllowedUpTo
+//@   ensures def: r0 == spec_allowed(s)
+//@   assigns nothing
+
+//@ func (*ImmuStore).CommittedAlh
+//@   ensures id: r0 == s.committedTxID
+//@   ensures alh: r1 == s.committedAlh
+//@   assigns nothing
+
+//@ func (*ImmuStore).precommittedAlh
+//@   ensures id: r0 == s.inmemPrecommittedTxID
+//@   ensures alh: r1 == s.inmemPrecommittedAlh
+//@   assigns nothing
+
+//@ func (*ImmuStore).LastCommittedTxID
+//@   ensures id: r0 == s.committedTxID
+//@   assigns nothing
+
+//@ func (*ImmuStore).LastPrecommittedTxID
+//@   ensures id: r0 == s.inmemPrecommittedTxID
+//@   assigns nothing
+
+// mayCommit / sync: one ensures clause per fact (a conjunction in a goal costs the solver minutes, see notes).
+//@ func (*ImmuStore).mayCommit
+//@   divmod abstract
+//@   requires wf: spec_csWF(s)
+//@   requires elems: forall(k, 0, len(s.cLogBuf.buf), s.cLogBuf.buf[k] != nil)
+//@   requires inv: spec_csInv(s)
+//@   ensures mono: s.committedTxID >= old(s.committedTxID)
+//@   ensures ok_id: r0 == nil ==> s.committedTxID == old(spec_allowed(s))
+//@   ensures ok_same: r0 == nil && old(spec_allowed(s)) == old(s.committedTxID) ==> s.committedAlh == old(s.committedAlh)
+//@   ensures ok_alh: r0 == nil && old(spec_allowed(s)) != old(s.committedTxID) ==>
+//@     s.committedAlh == old(s.cLogBuf.buf[(s.cLogBuf.rpos + int(spec_allowed(s) - s.committedTxID)) % len(s.cLogBuf.buf)].alh)
+//@   ensures ok_fit: r0 == nil && old(spec_allowed(s)) != old(s.committedTxID) ==>
+//@     0 < int(old(spec_allowed(s)) - old(s.committedTxID)) && int(old(spec_allowed(s)) - old(s.committedTxID)) <= old(spec_pbCount(s.cLogBuf))
+//@   ensures bad_id: r0 != nil ==> s.committedTxID == old(s.committedTxID)
+//@   ensures bad_alh: r0 != nil ==> s.committedAlh == old(s.committedAlh)
+//@   ensures bad_rpos: r0 != nil || old(spec_allowed(s)) == old(s.committedTxID) ==> s.cLogBuf.rpos == old(s.cLogBuf.rpos)
+//@   ensures bad_full: r0 != nil || old(spec_allowed(s)) == old(s.committedTxID) ==> s.cLogBuf.full == old(s.cLogBuf.full)
+//@   ensures keep_buf: s.cLogBuf == old(s.cLogBuf)
+//@   ensures keep_bufbuf: s.cLogBuf.buf == old(s.cLogBuf.buf)
+//@   ensures keep_wpos: s.cLogBuf.wpos == old(s.cLogBuf.wpos)
+//@   ensures keep_pid: s.inmemPrecommittedTxID == old(s.inmemPrecommittedTxID)
+//@   ensures keep_palh: s.inmemPrecommittedAlh == old(s.inmemPrecommittedAlh)
+//@   ensures keep_sz: s.precommittedTxLogSize == old(s.precommittedTxLogSize)
+//@   ensures keep_allow: s.commitAllowedUpToTxID == old(s.commitAllowedUpToTxID)
+//@   ensures keep_ext: s.useExternalCommitAllowance == old(s.useExternalCommitAllowance)
+//@   assigns internal, s, s.cLogBuf
+//@   loop 1 invariant range: 0 <= i && (i == 0 || i <= txsCountToBeCommitted)
+//@   loop 1 invariant f_buf: s.cLogBuf == old(s.cLogBuf)
+//@   loop 1 invariant f_bufbuf: s.cLogBuf.buf == old(s.cLogBuf.buf)
+//@   loop 1 invariant f_rpos: s.cLogBuf.rpos == old(s.cLogBuf.rpos)
+//@   loop 1 invariant f_wpos: s.cLogBuf.wpos == old(s.cLogBuf.wpos)
+//@   loop 1 invariant f_full: s.cLogBuf.full == old(s.cLogBuf.full)
+//@   loop 1 invariant f_arr: unchanged(s.cLogBuf.buf)
+//@   loop 1 invariant f_ent: i > 0 ==> unchanged(s.cLogBuf.buf[(s.cLogBuf.rpos + i) % len(s.cLogBuf.buf)])
+//@   loop 1 invariant zero: i == 0 ==> commitUpToTxID == 0
+//@   loop 1 invariant last_id: i > 0 ==> commitUpToTxID == s.cLogBuf.buf[(s.cLogBuf.rpos + i) % len(s.cLogBuf.buf)].txID
+//@   loop 1 invariant last_alh: i > 0 ==> commitUpToTxAlh == s.cLogBuf.buf[(s.cLogBuf.rpos + i) % len(s.cLogBuf.buf)].alh
+//@   loop 1 decreases txsCountToBeCommitted - i
+
+//@ func (*ImmuStore).SetExternalCommitAllowance
+//@   ensures ext: s.useExternalCommitAllowance == enabled
+//@   ensures on: enabled ==> s.commitAllowedUpToTxID == s.committedTxID
+//@   ensures off: !enabled ==> s.commitAllowedUpToTxID == old(s.commitAllowedUpToTxID)
+//@   ensures keep_cid: s.committedTxID == old(s.committedTxID)
+//@   ensures keep_calh: s.committedAlh == old(s.committedAlh)
+//@   ensures keep_pid: s.inmemPrecommittedTxID == old(s.inmemPrecommittedTxID)
+//@   ensures keep_palh: s.inmemPrecommittedAlh == old(s.inmemPrecommittedAlh)
+//@   ensures inv_allow: !s.useExternalCommitAllowance || s.committedTxID <= s.commitAllowedUpToTxID
+//@   assigns s
+
+// AllowCommitUpto: `mono_allow` and `cap` are the two halves of the C07 clause "commitAllowedUpToTxID never decreases and
+// never exceeds inmemPrecommittedTxID". `mono_allow` needs the allowance to be at most the precommitted id at entry
+// (`requires cap`); DiscardPrecommittedTxsSince does not maintain that (see its `allow_cap`).
+//@ func (*ImmuStore).AllowCommitUpto
+//@   divmod abstract
+//@   requires wf: spec_csWF(s)
+//@   requires elems: forall(k, 0, len(s.cLogBuf.buf), s.cLogBuf.buf[k] != nil)
+//@   requires inv: spec_csInv(s)
+//@   ensures noext: !old(s.useExternalCommitAllowance) ==> r0 != nil
+//@   ensures noext_keep: !old(s.useExternalCommitAllowance) ==> s.commitAllowedUpToTxID == old(s.commitAllowedUpToTxID)
+//@   ensures mono_allow: s.commitAllowedUpToTxID >= old(s.commitAllowedUpToTxID)
+//@   ensures raised: old(s.useExternalCommitAllowance) && txID > old(s.commitAllowedUpToTxID) ==> s.commitAllowedUpToTxID == min(txID, old(s.inmemPrecommittedTxID))
+//@   ensures same: txID <= old(s.commitAllowedUpToTxID) ==> s.commitAllowedUpToTxID == old(s.commitAllowedUpToTxID)
+//@   ensures cap: old(s.useExternalCommitAllowance) && old(s.commitAllowedUpToTxID) <= old(s.inmemPrecommittedTxID) ==> s.commitAllowedUpToTxID <= s.inmemPrecommittedTxID
+//@   ensures mono: s.committedTxID >= old(s.committedTxID)
+//@   ensures keep_pid: s.inmemPrecommittedTxID == old(s.inmemPrecommittedTxID)
+//@   ensures keep_palh: s.inmemPrecommittedAlh == old(s.inmemPrecommittedAlh)
+//@   ensures keep_ext: s.useExternalCommitAllowance == old(s.useExternalCommitAllowance)
+//@   ensures bad_id: r0 != nil ==> s.committedTxID == old(s.committedTxID)
+//@   ensures bad_alh: r0 != nil ==> s.committedAlh == old(s.committedAlh)
+//@   assigns internal, s, s.cLogBuf
+
+// DiscardPrecommittedTxsSince (C02): committed ids are never discarded; the committed fields are unchanged in every
+// outcome; the precommitted id only moves down, never below the committed id. `allow_cap` is the C07 clause "the
+// allowance never exceeds the precommitted id" as a two-state fact (property-derived; the code does not clamp the
+// allowance when it lowers inmemPrecommittedTxID).
+//@ func (*ImmuStore).DiscardPrecommittedTxsSince
+//@   divmod abstract
+//@   requires wf: spec_csWF(s)
+//@   requires elems: forall(k, 0, len(s.cLogBuf.buf), s.cLogBuf.buf[k] != nil)
+//@   requires inv: spec_csInv(s)
+//@   ensures refuse: txID <= old(s.committedTxID) ==> r1 != nil
+//@   ensures keep_cid: s.committedTxID == old(s.committedTxID)
+//@   ensures keep_calh: s.committedAlh == old(s.committedAlh)
+//@   ensures lower: s.inmemPrecommittedTxID <= old(s.inmemPrecommittedTxID)
+//@   ensures floor: s.committedTxID <= s.inmemPrecommittedTxID
+//@   ensures noop: txID > old(s.inmemPrecommittedTxID) ==> s.inmemPrecommittedTxID == old(s.inmemPrecommittedTxID)
+//@   ensures ok_pid: r1 == nil && !old(s.closed) && old(s.committedTxID) < txID && txID <= old(s.inmemPrecommittedTxID) ==> s.inmemPrecommittedTxID == txID - 1
+//@   ensures ok_first: r1 == nil && !old(s.closed) && txID == old(s.committedTxID) + 1 && txID <= old(s.inmemPrecommittedTxID) ==> s.inmemPrecommittedAlh == s.committedAlh
+//@   ensures keep_allow: s.commitAllowedUpToTxID == old(s.commitAllowedUpToTxID)
+//@   ensures keep_ext: s.useExternalCommitAllowance == old(s.useExternalCommitAllowance)
+//@   ensures allow_cap: old(s.useExternalCommitAllowance) && old(s.commitAllowedUpToTxID) <= old(s.inmemPrecommittedTxID) ==> s.commitAllowedUpToTxID <= s.inmemPrecommittedTxID
+//@   assigns internal, s, s.cLogBuf
+
+//@ func (*ImmuStore).DiscardPrecommittedTxsSince$1
+//@   assigns nothing
+
+// PrecommittedAlh: the durable-precommit frontier as reported by the (unmodelled) watchers hub selects which guarded
+// pair is returned (`durablePrecommittedTxID` is the local holding the hub's answer).
+//@ func (*ImmuStore).PrecommittedAlh
+//@   divmod abstract
+//@   requires wf: spec_csWF(s)
+//@   requires elems: forall(k, 0, len(s.cLogBuf.buf), s.cLogBuf.buf[k] != nil)
+//@   ensures committed_id: durablePrecommittedTxID == s.committedTxID ==> r0 == s.committedTxID
+//@   ensures committed_alh: durablePrecommittedTxID == s.committedTxID ==> r1 == s.committedAlh
+//@   ensures inmem_id: durablePrecommittedTxID != s.committedTxID && durablePrecommittedTxID == s.inmemPrecommittedTxID ==> r0 == s.inmemPrecommittedTxID
+//@   ensures inmem_alh: durablePrecommittedTxID != s.committedTxID && durablePrecommittedTxID == s.inmemPrecommittedTxID ==> r1 == s.inmemPrecommittedAlh
+//@   assigns nothing
+
+// ------------------------------------------------------------------------------------------------
+// performPrecommit (C02): the single place where ids and PrevAlh are assigned.
+
+// appendValuesInto: one offset per entry (values go to an Appendable: assumed frame of the interface).
+//@ func (*ImmuStore).appendValuesInto
+//@   requires specs: forall(k, 0, len(entries), entries[k] != nil)
+//@   requires app != nil
+//@   ensures count: r1 == nil ==> len(r0) == len(entries)
+//@   assigns internal
+//@   loop 1 invariant range: 0 <= i && i <= len(offsets)
+//@   loop 1 invariant len: len(offsets) == len(entries)
+//@   loop 1 invariant own: loopowned(offsets)
+//@   loop 1 decreases len(offsets) - i
+
+// performPrecommit. Representation facts assumed at entry (established by OpenWith / the tx pool and kept by every
+// function of the package): spec_csWF, the ring buffer's slots, the holder's entry slots, a header version the
+// serializer knows (precommit gets it from BuildHashTree), NEntries == len(entries) <= len(tx.entries).
+// `ok_*`: the property's clauses for a successful precommit. `bad_*`: an error return leaves the guarded fields alone.
+// `ok_blroot0`: a header that links to no earlier transaction carries the zero root (C02 "embeds the root of the hash
+// tree over all earlier accumulated hashes"; C07 "zero when BlTxID = 0").
+//@ func (*ImmuStore).performPrecommit
+//@   divmod abstract
+//@   requires wf: spec_csWF(s)
+//@   requires elems: forall(k, 0, len(s.cLogBuf.buf), s.cLogBuf.buf[k] != nil)
+//@   requires distinct: forall(k, 0, len(s.cLogBuf.buf), forall(j, 0, len(s.cLogBuf.buf), k != j ==> !sameobj(s.cLogBuf.buf[k], s.cLogBuf.buf[j])))
+//@   requires sep: forall(k, 0, len(s.cLogBuf.buf), !sameobj(s.cLogBuf.buf[k], s.cLogBuf))
+//@   requires inv: spec_csInv(s)
+//@   requires txwf: tx != nil && tx.header != nil && (tx.header.Version == 0 || tx.header.Version == 1)
+//@   requires nent: 0 <= tx.header.NEntries && tx.header.NEntries <= len(tx.entries) && tx.header.NEntries == len(entries)
+//@   requires ents: forall(k, 0, len(tx.entries), tx.entries[k] != nil)
+//@   requires specs: forall(k, 0, len(entries), entries[k] != nil)
+//@   requires cache: s.txLogCache != nil
+//@   requires sepbuf: !sameobj(s._txbs, s) && !sameobj(s._txbs, tx.header) && !sameobj(s._txbs, s.cLogBuf) && !sameobj(s._txbs, tx)
+//@   ensures ok_id: r0 == nil ==> tx.header.ID == old(s.inmemPrecommittedTxID) + 1
+//@   ensures ok_prev: r0 == nil ==> tx.header.PrevAlh == old(s.inmemPrecommittedAlh)
+//@   ensures ok_ts: r0 == nil ==> tx.header.Ts == ts
+//@   ensures ok_bl: r0 == nil ==> tx.header.BlTxID == blTxID
+//@   ensures ok_blroot0: r0 == nil && blTxID == 0 ==> be64(tx.header.BlRoot[0:]) == 0 && be64(tx.header.BlRoot[8:]) == 0 && be64(tx.header.BlRoot[16:]) == 0 && be64(tx.header.BlRoot[24:]) == 0
+//@   ensures ok_pid: r0 == nil ==> s.inmemPrecommittedTxID == tx.header.ID
+//@   ensures ok_palh: r0 == nil ==> s.inmemPrecommittedAlh == tx.header.Alh()
+//@   ensures bad_cid: r0 != nil ==> s.committedTxID == old(s.committedTxID)
+//@   ensures bad_calh: r0 != nil ==> s.committedAlh == old(s.committedAlh)
+//@   ensures bad_pid: r0 != nil ==> s.inmemPrecommittedTxID == old(s.inmemPrecommittedTxID)
+//@   ensures bad_palh: r0 != nil ==> s.inmemPrecommittedAlh == old(s.inmemPrecommittedAlh)
+//@   ensures bad_sz: r0 != nil ==> s.precommittedTxLogSize == old(s.precommittedTxLogSize)
+//@   ensures mono: s.committedTxID >= old(s.committedTxID)
+//@   ensures keep_hdr: tx.header == old(tx.header)
+//@   loop 1 invariant sum: 0 <= rangeindex + 1
+//@   loop 2 invariant range: 0 <= i && i <= tx.header.NEntries
+//@   loop 3 invariant range: 0 <= i && i <= tx.header.NEntries
+//@   loop 3 invariant g_hdr: tx.header == old(tx.header)
+//@   loop 3 invariant g_id: tx.header.ID == old(s.inmemPrecommittedTxID) + 1
+//@   loop 3 invariant g_prev: tx.header.PrevAlh == old(s.inmemPrecommittedAlh)
+//@   loop 3 invariant g_ts: tx.header.Ts == ts
+//@   loop 3 invariant g_bl: tx.header.BlTxID == blTxID
+//@   loop 3 invariant g_ver: tx.header.Version == old(tx.header.Version)
+//@   loop 3 invariant g_nent: tx.header.NEntries == old(tx.header.NEntries)
+//@   loop 3 invariant g_cid: s.committedTxID == old(s.committedTxID)
+//@   loop 3 invariant g_calh: s.committedAlh == old(s.committedAlh)
+//@   loop 3 invariant g_pid: s.inmemPrecommittedTxID == old(s.inmemPrecommittedTxID)
+//@   loop 3 invariant g_palh: s.inmemPrecommittedAlh == old(s.inmemPrecommittedAlh)
+//@   loop 3 invariant g_sz: s.precommittedTxLogSize == old(s.precommittedTxLogSize)
+//@   loop 3 invariant g_buf: s.cLogBuf == old(s.cLogBuf)
+//@   loop 3 invariant g_txbs: s._txbs == old(s._txbs)
+//@   loop 3 assigns s._txbs
+//@   loop 3 decreases tx.header.NEntries - i
